@@ -369,13 +369,7 @@ func (c *Cluster) checkC10(n *SimNode) {
 					}
 				}
 				if cb, ok := model.cause[inForce]; ok && cb >= 0 {
-					late := true
-					for _, d := range n.app.log {
-						if !d.Shadow && d.Epoch == n.epoch && d.Block.Index() == cb && d.Step < de.FirstStep {
-							late = false
-						}
-					}
-					if late {
+					if c.lateSetChangeFor(n, r, de.FirstStep, w) {
 						c.violate("C10", "witness-membership", "set-change-in-force-at-a-round-that-already-has-events", "node %d: round %d has a witness %s created by %s who is not in the round's validator set: block %d (round-received %d), whose receipt removes it from round %d on, was committed by this node only after that event existed", n.idx, r, short(w), short(de.Creator), cb, inForce-6, inForce)
 						return
 					}
@@ -722,6 +716,19 @@ func (c *Cluster) checkC13() {
 				continue
 			}
 			want := known.at(r)
+			if !sameList(pubKeysOf(got), want) && debugTrace {
+				ab, _, aerr := n.core().GetAnchorBlockWithFrame()
+				ai := -9
+				if ab != nil {
+					ai = ab.Index()
+				}
+				fmt.Fprintf(os.Stderr, "  C13 debug: node %d store last block %d, anchor %d (err %v), app log %d entries, canonical chain has %d blocks, lcr %v\n", n.idx, h.Store.LastBlockIndex(), ai, aerr, len(n.app.log), len(c.chainBody), h.LastConsensusRound)
+				for i := 0; i < 12; i++ {
+					if b, err := h.Store.GetBlock(i); err == nil {
+						fmt.Fprintf(os.Stderr, "     node %d has block %d rr %d receipts %d\n", n.idx, i, b.RoundReceived(), len(b.InternalTransactionReceipts()))
+					}
+				}
+			}
 			if !sameList(pubKeysOf(got), want) {
 				c.violate("C13", "validator-history", "ff-validator-set-differs", "fast-forwarded node %d (anchor round %d, last block %d): validator set for round %d is %v, the committed blocks up to its last block give %v", n.idx, lb, lastIdx, r, shortList(pubKeysOf(got)), shortList(want))
 				return
@@ -1107,6 +1114,11 @@ func (c *Cluster) checkQuorums(n *SimNode) {
 			}
 			ss := 0
 			for _, w := range ri.Witnesses() {
+				if w == de.Hash {
+					// the event itself may by now be a witness of its parent round (it
+					// inherited the round from a non-member's event): it does not count
+					continue
+				}
 				if c.dag.events[w] == nil {
 					ss = -1
 					break
@@ -1123,9 +1135,26 @@ func (c *Cluster) checkQuorums(n *SimNode) {
 				want = pr + 1
 			}
 		}
-		if ev.SimRound() != want && c.lateSetChange(n, maxInt(pr, 0)+1, de.FirstStep) {
+		if ev.SimRound() != want && c.lateSetChangeFor(n, maxInt(pr, 0)+1, de.FirstStep, de.Hash) {
 			c.violate("C10", "quorum", "set-change-in-force-at-a-round-that-already-has-events", "node %d gives event %s round %d, the validator-set model %d: a set change in force at that round was committed by this node only after the event existed", n.idx, short(de.Hash), ev.SimRound(), want)
 			return
+		}
+		if ev.SimRound() != want && debugTrace {
+			fmt.Fprintf(os.Stderr, "  quorum debug: node %d event %s (n%d#%d) round %d want %d; model rounds %v; ", n.idx, short(de.Hash), c.byPub[de.Creator].idx, de.Index, ev.SimRound(), want, c.vs.rounds)
+			if sets, err := store.GetAllPeerSets(); err == nil {
+				for rr, ps := range sets {
+					fmt.Fprintf(os.Stderr, "node set from %d: %d; ", rr, len(ps))
+				}
+			}
+			fmt.Fprintf(os.Stderr, "\n")
+			for i := 0; i <= de.Index+1; i++ {
+				if hh, ok := c.dag.byCI[de.Creator][i]; ok {
+					if e2, err := store.GetEvent(hh); err == nil {
+						w2, _ := h.SimWitness(hh)
+						fmt.Fprintf(os.Stderr, "      n%d#%d round %d witness %v\n", c.byPub[de.Creator].idx, i, e2.SimRound(), w2)
+					}
+				}
+			}
 		}
 		if ev.SimRound() != want {
 			c.violate("C10", "quorum", "round-not-by-two-thirds-of-round-set", "node %d gives event %s round %d; by true reachability and the validator set of its parent round %d (%d members, more than two thirds = %d) it is %d", n.idx, short(de.Hash), ev.SimRound(), pr, len(c.vs.at(maxInt(pr, 0))), superMajority(len(c.vs.at(maxInt(pr, 0)))), want)
@@ -1152,7 +1181,7 @@ func (c *Cluster) checkQuorums(n *SimNode) {
 			if de == nil {
 				continue
 			}
-			if !contains(V, de.Creator) && c.lateSetChange(n, r, de.FirstStep) {
+			if !contains(V, de.Creator) && c.lateSetChangeFor(n, r, de.FirstStep, w) {
 				c.violate("C10", "quorum", "set-change-in-force-at-a-round-that-already-has-events", "node %d: decided round %d counts witness %s of %s who is not in the round's validator set; the set change was committed by this node only after that event existed", n.idx, r, short(w), short(de.Creator))
 				return
 			}
@@ -1357,7 +1386,7 @@ func (c *Cluster) checkFameQuorums(n *SimNode) {
 					}
 				}
 			}
-			if ((fame != 0) != decided || (decided && (fame == 1) != v)) && c.lateSetChange(n, lr, c.dag.events[x].FirstStep) {
+			if ((fame != 0) != decided || (decided && (fame == 1) != v)) && c.lateSetChangeFor(n, lr, c.dag.events[x].FirstStep, x) {
 				c.violate("C10", "quorum", "set-change-in-force-at-a-round-that-already-has-events", "node %d: the fame of witness %s (round %d) differs from what the per-round validator sets give; a set change in force in the rounds concerned was committed by this node only after that witness existed", n.idx, short(x), r)
 				return
 			}
@@ -1388,9 +1417,23 @@ func (c *Cluster) checkFameQuorums(n *SimNode) {
 // change then applied to a round that already had events at this node: the open
 // finding "set-change-in-force-at-a-round-that-already-has-events".)
 func (c *Cluster) lateSetChange(n *SimNode, r int, firstStep int) bool {
+	return c.lateSetChangeFor(n, r, firstStep, "")
+}
+
+// lateSetChangeFor: as lateSetChange; if the event is given and the node still
+// knows in which position it inserted it, that position is compared with the
+// number of events the node had inserted when it committed the block (exact);
+// otherwise scheduler steps are compared (a lagging node may then look late).
+func (c *Cluster) lateSetChangeFor(n *SimNode, r int, firstStep int, event string) bool {
 	model := c.nodeModel(n)
 	if model == nil {
 		return false
+	}
+	pos := -1
+	if event != "" && n.running() {
+		if ev, err := n.core().Hashgraph().Store.GetEvent(event); err == nil {
+			pos = ev.SimTopologicalIndex()
+		}
 	}
 	for _, mr := range model.rounds {
 		if mr > r || mr == 0 {
@@ -1402,7 +1445,14 @@ func (c *Cluster) lateSetChange(n *SimNode, r int, firstStep int) bool {
 		}
 		late := true
 		for _, d := range n.app.log {
-			if !d.Shadow && d.Epoch == n.epoch && d.Block.Index() == cb && d.Step < firstStep {
+			if d.Shadow || d.Epoch != n.epoch || d.Block.Index() != cb {
+				continue
+			}
+			if pos > 0 && d.Topo >= 0 {
+				if d.Topo <= pos {
+					late = false // committed before the event was inserted
+				}
+			} else if d.Step < firstStep {
 				late = false
 			}
 		}
